@@ -24,9 +24,9 @@ func (C07) Plan(tier string) core.Plan {
 
 func (C07) Info() core.Info {
 	return core.Info{
-		Rule: "shape A: target parameter (n,T1); 2-5 supplied named T0 values one of which is named n; one converter with a type-only T0 input producing T1, in positional / struct / pointer-struct / built form; shape B: supplied (n,T0); one converter that takes (n,T0) explicitly and one type-only T0->T1 converter; both with 0-4 unrelated distractors, every registration order, random casing of names, additional target parameters. Each world under 12-48 seeded iteration-order schedules. Oracle A: the converter received the token supplied as n and the target received that execution's product. Oracle B: the name-using converter is in the log, the type-only one is not. Non-trivial: always (the competing candidates are the shape); distinct = distinct (world shape, event-log hash)",
+		Rule: "shape A: target parameter (n,T1), sometimes further named T1 parameters; 2-5 supplied named T0 values (sometimes all carrying one subtype label) among which each such parameter has a namesake; one converter with a type-only T0 input producing T1, in positional / struct / pointer-struct / built form; shape B: supplied (n,T0); one converter that takes (n,T0) explicitly and one type-only T0->T1 converter; both with 0-4 unrelated distractors, every registration order, random casing of names, additional target parameters. Each world under 12-48 seeded iteration-order schedules. Oracle A: the converter received the token supplied as n and the target received that execution's product. Oracle B: the name-using converter is in the log, the type-only one is not. Non-trivial: always (the competing candidates are the shape); distinct = distinct (world shape, event-log hash)",
 		Assumptions: []string{"the statement covers a single conversion step; chains are not asserted"},
-		Probes:      []string{"c07_shape_a", "c07_shape_b", "c07_a_ge3_candidates", "c07_mixed_case_names", "s1_nonidentity_perms"},
+		Probes:      []string{"c07_shape_a", "c07_shape_b", "c07_a_ge3_candidates", "c07_a_multi_param", "c07_a_subtyped_candidates", "c07_mixed_case_names", "s1_nonidentity_perms"},
 		Real:        realComponents,
 		Simulated:   simComponents,
 	}
@@ -80,8 +80,21 @@ func (C07) Gen(r *simrt.RNG, tier string) core.Case {
 	if shapeA {
 		w.Note = "A"
 		k := 2 + r.Intn(4)
+		// the competing values may all carry a subtype label (the parameter has none)
+		sub := ""
+		if r.Chance(1, 4) {
+			sub = world.Subs[r.Intn(2)]
+		}
 		for i := 0; i < k; i++ {
-			addArg(world.ArgSpec{Kind: world.ArgNamed, Label: world.Label{Name: names[i], Type: T0}, Spell: spell(names[i])})
+			addArg(world.ArgSpec{Kind: world.ArgNamed, Label: world.Label{Name: names[i], Type: T0, Sub: sub}, Spell: spell(names[i])})
+		}
+		// further named parameters of the same type, each to be converted from its own namesake
+		extra := 0
+		if r.Chance(1, 3) {
+			extra = 1 + r.Intn(k-1)
+		}
+		for i := 1; i <= extra; i++ {
+			w.Parties[0].In = append(w.Parties[0].In, world.Slot{Label: world.Label{Name: names[i], Type: T1}, Spell: r.Intn(3)})
 		}
 		inF, outF := convForm()
 		c := world.Party{InForm: inF, OutForm: outF, In: []world.Slot{{Label: world.Label{Type: T0}}}, Out: []world.Slot{{Label: world.Label{Type: T1}}}, HasErr: inF == world.FormBuilt || r.Bool()}
@@ -180,9 +193,6 @@ func c07Shape(w world.World) (shape string, n string, T0, T1 int, conv, nameConv
 			if a.Label.Type == T1 {
 				return "", "", 0, 0, 0, 0 // a direct candidate: not this shape
 			}
-			if a.Label.Sub != "" {
-				return "", "", 0, 0, 0, 0
-			}
 		default:
 			return "", "", 0, 0, 0, 0
 		}
@@ -191,8 +201,12 @@ func c07Shape(w world.World) (shape string, n string, T0, T1 int, conv, nameConv
 		return len(p.In) == 1 && p.In[0].Name == "" && p.In[0].Sub == "" && len(p.Out) == 1 && p.Out[0].Name == "" && p.Out[0].Sub == "" && !p.Once
 	}
 	view := model.ViewOf(&w, 0)
-	// every other parameter of the target has an exactly keyed value
+	// every other parameter of the target has an exactly keyed value, or is a
+	// further named parameter of type T1 to be converted from its namesake
 	for _, s := range t.In[1:] {
+		if s.Name != "" && s.Sub == "" && s.Type == T1 {
+			continue
+		}
 		ok := false
 		for _, l := range view.Supplied {
 			if l == s.Label {
@@ -202,6 +216,18 @@ func c07Shape(w world.World) (shape string, n string, T0, T1 int, conv, nameConv
 		if !ok {
 			return "", "", 0, 0, 0, 0
 		}
+	}
+	subSeen := map[string]bool{}
+	for _, l := range view.Supplied {
+		if l.Sub != "" && (l.Name == "" || !(len(prod) > 0 && len(w.Parties[prod[0]].In) == 1 && l.Type == w.Parties[prod[0]].In[0].Type)) {
+			return "", "", 0, 0, 0, 0
+		}
+		if l.Name != "" && len(prod) > 0 && len(w.Parties[prod[0]].In) == 1 && l.Type == w.Parties[prod[0]].In[0].Type {
+			subSeen[l.Sub] = true
+		}
+	}
+	if len(subSeen) > 1 {
+		return "", "", 0, 0, 0, 0
 	}
 	countNamed := func(T int) (total int, hasN bool, typed bool) {
 		for _, l := range view.Supplied {
@@ -238,6 +264,19 @@ func c07Shape(w world.World) (shape string, n string, T0, T1 int, conv, nameConv
 				}
 			}
 		}
+		for _, s := range t.In[1:] {
+			if s.Type == T1 {
+				found := false
+				for _, l := range view.Supplied {
+					if l.Name == s.Name && l.Type == T0 {
+						found = true
+					}
+				}
+				if !found {
+					return "", "", 0, 0, 0, 0
+				}
+			}
+		}
 		return "A", n, T0, T1, prod[0], -1
 	case 2:
 		a, b := w.Parties[prod[0]], w.Parties[prod[1]]
@@ -251,8 +290,13 @@ func c07Shape(w world.World) (shape string, n string, T0, T1 int, conv, nameConv
 		}
 		T0 = a.In[0].Type
 		tot, hasN, typed := countNamed(T0)
-		if tot != 1 || !hasN || typed || T0 == T1 {
+		if tot != 1 || !hasN || typed || T0 == T1 || subSeen[""] == false {
 			return "", "", 0, 0, 0, 0
+		}
+		for _, s := range t.In[1:] {
+			if s.Type == T1 {
+				return "", "", 0, 0, 0, 0
+			}
 		}
 		for ai, x := range w.Args {
 			if used[ai] && (x.Kind == world.ArgConv || x.Kind == world.ArgConvFunc) && x.Party != ci && x.Party != ni {
@@ -321,6 +365,14 @@ func (C07) Run(c core.Case, ctx *core.Ctx) []core.Violation {
 		if mixed {
 			ctx.St.Inc("c07_mixed_case_names")
 		}
+		if shape == "A" {
+			for _, l := range view.Supplied {
+				if l.Type == T0 && l.Sub != "" {
+					ctx.St.Inc("c07_a_subtyped_candidates")
+					break
+				}
+			}
+		}
 		res := rt.Results[0]
 		switch {
 		case !res.Returned:
@@ -349,11 +401,30 @@ func (C07) Run(c core.Case, ctx *core.Ctx) []core.Violation {
 					add("converter-not-used", "shape A: the only converter producing the parameter was not executed")
 					break
 				}
-				if convExec.In[0] != rt.ArgTok[wantArg] {
-					got := rt.Tokens[convExec.In[0]]
-					add("wrong-named-input-converted", fmt.Sprintf("schedule %d: parameter %q must be converted from the value named %q, but the converter received the value labelled %s (%d same-typed candidates)", k, n, n, got.Label, cands))
-				} else if len(convExec.Out) != 1 || tExec.In[0] != convExec.Out[0] {
-					add("target-did-not-receive-conversion", fmt.Sprintf("schedule %d: the target's parameter %q holds token %d, not the product %v of the conversion", k, n, tExec.In[0], convExec.Out))
+				_ = wantArg
+				t := w.Parties[tgt]
+				for pi, s := range t.In {
+					if s.Name == "" || s.Type != t.In[0].Type {
+						continue
+					}
+					if pi > 0 {
+						ctx.St.Inc("c07_a_multi_param")
+					}
+					// the value this parameter holds must be the product of a conversion
+					// whose input was the supplied value of the same name
+					id := tExec.In[pi]
+					if id == 0 || id >= uint64(len(rt.Tokens)) || rt.Tokens[id].Kind != world.TokProduced || rt.Tokens[id].Party != conv || len(rt.Tokens[id].Inputs) != 1 {
+						add("target-did-not-receive-conversion", fmt.Sprintf("schedule %d: the target's parameter %q holds token %d, which is not a product of the converter", k, s.Name, id))
+						continue
+					}
+					src := rt.Tokens[id].Inputs[0]
+					if src == 0 || src >= uint64(len(rt.Tokens)) || rt.Tokens[src].Label.Name != s.Name {
+						gl := "the zero value"
+						if src != 0 && src < uint64(len(rt.Tokens)) {
+							gl = rt.Tokens[src].Label.String()
+						}
+						add("wrong-named-input-converted", fmt.Sprintf("schedule %d: parameter %q must be converted from the value named %q, but it was converted from the value labelled %s (%d same-typed candidates)", k, s.Name, s.Name, gl, cands))
+					}
 				}
 			} else {
 				if nameExec == nil || convExec != nil {
